@@ -283,9 +283,20 @@ func c02Schema() dyn.Schema {
 	}}
 }
 
-func c06Schema() dyn.Schema {
+func c06Schema() dyn.Schema { return c06SchemaN(0) }
+
+// c06SchemaN: the arrangement of the indexes of table A varies - disjoint, one index within another declared before or
+// after it, two that share a column, one set of columns declared twice in another order. Each is unique on its own.
+func c06SchemaN(i int) dyn.Schema {
+	arrangements := [][][]string{
+		{{"name"}, {"x", "y"}},
+		{{"x", "y"}, {"x"}, {"name"}},
+		{{"name", "t"}, {"name"}, {"x", "y"}},
+		{{"x", "y"}, {"y", "t"}, {"name"}},
+		{{"y"}, {"x", "y"}, {"y", "x"}, {"name"}},
+	}
 	return dyn.Schema{Name: "C06", Tables: []dyn.Table{
-		{Name: "A", IsRoot: true, Indexes: [][]string{{"name"}, {"x", "y"}}, Cols: []val.Col{
+		{Name: "A", IsRoot: true, Indexes: arrangements[i%len(arrangements)], Cols: []val.Col{
 			{Name: "name", K: 'a', KT: 's'}, {Name: "x", K: 'a', KT: 'i'}, {Name: "y", K: 'a', KT: 's'}, {Name: "t", K: 'a', KT: 's'},
 			{Name: "kids", K: 's', KT: 'u', Max: -1, RefTable: "B", RefType: "strong"}}},
 		{Name: "B", Indexes: [][]string{{"k"}}, Cols: []val.Col{{Name: "k", K: 'a', KT: 's'}, {Name: "ok", K: 'o', KT: 's'}}},
@@ -473,7 +484,7 @@ func driveC02(o opts) error {
 
 func driveC06(o opts) error {
 	p := txnProfile{prop: "C06", ncases: 120, ntxn: 8, maxOps: 4, shard: 30,
-		schemas: func(g *gen.G, i int) dyn.Schema { return c06Schema() },
+		schemas: func(g *gen.G, i int) dyn.Schema { return c06SchemaN(i) },
 		tune:    func(tg *txnGen) { tg.pInvalid = 0.02; tg.pool = 3; tg.pSelect = 0.05; tg.pWait = 0.0; tg.swaps = 0.3 },
 		oracle:  oracleUnique,
 		seed: func(tg *txnGen) []TOp {
